@@ -78,7 +78,18 @@ def dmrg_case(ctx, idx, rng):
         L = int(rng.integers(2, lmax + 1))
         H = gen.model(src, L, gen.generic_params(rng))
     prof = str(rng.choice(['random', 'random', 'one', 'max', 'over']))
+    if idx % 9 == 8 and len(H.qd) ** L <= 256:
+        # start from an EXACT eigenstate of H (ground state or an excited one; quantum numbers switched off on a copy of the operator):
+        # every local Krylov space is one-dimensional (breakdown at the first iteration); the energy can only stay or go down
+        H = copy.deepcopy(H).zero_qnumbers()
+        mh = refs.dense_operator(H.A)
+        lam_, U_ = np.linalg.eigh((mh + mh.conj().T) / 2)
+        psi0 = ptn.MPS.from_vector(len(H.qd), L, U_[:, int(rng.choice([0, 0, int(rng.integers(0, U_.shape[1]))]))] * complex(rng.normal(), rng.normal()), 0)
+        prof = 'eigenstate'
     for _ in range(20):
+        if prof == 'eigenstate':
+            psi = psi0
+            break
         psi = gen.rand_mps(rng, H.qd, L, prof, Dmax=4, kind=str(rng.choice(['complex', 'real'])))
         if np.linalg.norm(refs.dense_state(psi.A)) > 1e-8:
             break
